@@ -8,6 +8,7 @@
 //     Conn.Read) driven through free-form op sequences (op `ops`);
 //   - the patricia tree (newPatriciaTree / newNode / splitPrefix / match) on generated
 //     string sets (ops `pt`, `split`).
+//
 // Everything is compared with the Lean model; the specification oracle (`cls`, byte-stream
 // identity) is evaluated on what the implementation did.
 package main
@@ -29,6 +30,8 @@ import (
 )
 
 func main() { Main("C19", run) }
+
+var sawPanic bool
 
 // ---------------------------------------------------------------- scripted connection
 
@@ -622,7 +625,112 @@ func run(c *Ctx) {
 	c.Res.Rule = "mux case = (byte stream, peer segmentation/failure script, service read sizes); ops case = (stream, script, start/done/read sequence); pt case = (string set, mode, input). Distinct by the op line; non-trivial when the stream is non-empty (mux/ops) or the set has ≥ 2 strings (pt)."
 	runPatricia(c)
 	runOps(c)
+	if sawPanic {
+		// Listener.serve runs the matchers in its own goroutines: a panic there would take the
+		// whole harness down and lose the findings already made
+		c.Note("mux and loopback runs skipped: the matcher / sniffer panicked in the direct runs above")
+		return
+	}
 	runMux(c)
+	if c.Replay == "" {
+		runLoopback(c)
+	}
+}
+
+// runLoopback: a few connections through the real listener.New on a loopback TCP port
+// (covers New / net.Listen / the kernel path; segmentation is only sampled here).
+func runLoopback(c *Ctx) {
+	l, err := listener.New("127.0.0.1:0", nil)
+	if err != nil {
+		c.Note("loopback run skipped: " + err.Error())
+		return
+	}
+	defer l.Close()
+	l.SetReadTimeout(20 * time.Second)
+	type got struct {
+		svc  string
+		data []byte
+	}
+	results := make(chan got, 8)
+	serveStub := func(name string, ln net.Listener) {
+		for {
+			conn, err := ln.Accept()
+			if err != nil {
+				return
+			}
+			go func() {
+				buf := make([]byte, 0, 4096)
+				tmp := make([]byte, 1+len(name)) // odd read size
+				_ = conn.SetReadDeadline(time.Now().Add(30 * time.Second))
+				for {
+					n, err := conn.Read(tmp)
+					buf = append(buf, tmp[:n]...)
+					if err != nil {
+						break
+					}
+				}
+				conn.Close()
+				results <- got{name, buf}
+			}()
+		}
+	}
+	go serveStub("rtsp", l.Match(rtsp.MatchRTSP()))
+	go serveStub("http", l.Match(listener.MatchHTTP()))
+	go l.Serve()
+	lines := []struct{ line, want string }{
+		{"OPTIONS * RTSP/1.0\r\nCSeq: 1\r\n\r\n", "rtsp"},
+		{"OPTIONS * HTTP/1.1\r\nHost: x\r\n\r\n", "http"},
+		{"OPTIONS rtsp://127.0.0.1/live RTSP/1.0\r\nCSeq: 1\r\n\r\n", "rtsp"},
+		{"OPTIONS /api HTTP/1.1\r\nHost: x\r\n\r\n", "http"},
+		{"DESCRIBE rtsp://127.0.0.1/live RTSP/1.0\r\nCSeq: 2\r\n\r\n", "rtsp"},
+		{"GET_PARAMETER rtsp://127.0.0.1/live RTSP/1.0\r\nCSeq: 3\r\n\r\n", "rtsp"},
+		{"GET /index.html HTTP/1.1\r\nHost: x\r\n\r\n", "http"},
+		{"POST /api/v1/login HTTP/1.1\r\nContent-Length: 2\r\n\r\n{}", "http"},
+		{"BREW /pot HTCPCP/1.0\r\n\r\n", "closed"},
+		{"\x16\x03\x01\x02\x00\x01\x00\x01\xfc\x03\x03 tls client hello", "closed"},
+	}
+	for i, lc := range lines {
+		raw := lc.line
+		payload := append([]byte(raw), c.Rng.Bytes(i*37)...)
+		conn, err := net.Dial("tcp", l.Addr().String())
+		if err != nil {
+			c.Note("loopback dial failed: " + err.Error())
+			return
+		}
+		cut := 1 + c.Rng.Intn(len(raw)-1)
+		conn.Write(payload[:cut])
+		time.Sleep(2 * time.Millisecond)
+		conn.Write(payload[cut:])
+		if tc, ok := conn.(*net.TCPConn); ok {
+			tc.CloseWrite()
+		}
+		route, data := "closed", []byte(nil)
+		done := make(chan struct{})
+		go func() { // a closed connection shows as EOF / reset on the client side
+			b := make([]byte, 16)
+			_ = conn.SetReadDeadline(time.Now().Add(40 * time.Second))
+			conn.Read(b)
+			close(done)
+		}()
+		select {
+		case g := <-results:
+			route, data = g.svc, g.data
+		case <-done:
+			select {
+			case g := <-results:
+				route, data = g.svc, g.data
+			case <-time.After(200 * time.Millisecond):
+			}
+		}
+		conn.Close()
+		c.Eval(fmt.Sprintf("loopback %d", i), true)
+		c.Count("loopback-route-" + route)
+		if route != lc.want {
+			c.Find(Finding{Kind: "oracle", Class: fmt.Sprintf("route-%s-expected-%s", route, lc.want), Case: "c19 mux " + Hx(payload) + " - 4096", Impl: route, Spec: lc.want, Detail: "loopback TCP through listener.New; first line " + fmt.Sprintf("%q", raw)})
+		} else if route != "closed" && !bytes.Equal(data, payload) {
+			c.Find(Finding{Kind: "oracle", Class: "service-bytes-lost-or-altered", Case: "c19 mux " + Hx(payload) + " - 4096", Impl: fmt.Sprintf("%d bytes", len(data)), Spec: fmt.Sprintf("%d bytes", len(payload)), Detail: "loopback TCP through listener.New"})
+		}
+	}
 }
 
 // ---------------------------------------------------------------- mux
@@ -936,6 +1044,8 @@ func runOps(c *Ctx) {
 		impl, views, svc, pan := runOpsImpl(k)
 		if pan != "" {
 			impl = "panic"
+			sawPanic = true
+			c.Find(Finding{Kind: "oracle", Class: "sniffer-panic", Case: lines[i], Impl: "panic: " + pan, Spec: "no panic"})
 		}
 		c.Eval(lines[i], len(k.stream) > 0)
 		if k.protocol {
@@ -1146,6 +1256,8 @@ func runPatricia(c *Ctx) {
 		implLine := fmt.Sprintf("match=%s depth=%d", impl, depth)
 		if pan != "" {
 			implLine = "panic:" + pan
+			sawPanic = true
+			c.Find(Finding{Kind: "oracle", Class: "matcher-panic", Case: line, Impl: "panic: " + pan, Spec: m["spec"]})
 		}
 		if implLine != fmt.Sprintf("match=%s depth=%s", m["match"], m["depth"]) {
 			c.Find(Finding{Kind: "corr", Class: "patricia", Case: line, Impl: implLine, Model: outs[2*i]})
